@@ -95,7 +95,7 @@ Qed.
 Lemma stmt_no_ph : forall f, stmt_nph f.
 Proof.
   induction f as [f IH] using lt_wf_ind. intros s n k scope base Hh Hwf.
-  destruct s as [e|i e|i o e|i up|e|c t e|c t|c b|e c p b| |].
+  destruct s as [e|i e|i o e|i up|e|c t e|c t|c b|b|e c p b| |].
   - cbn [stmt_code]. destruct (cexp_at (slot_of scope) base e). apply no_ph_I.
   - cbn [stmt_code]. destruct (cexp_at (slot_of scope) base e). apply no_ph_I.
   - cbn [stmt_code]. destruct (cexp_at (slot_of scope) base e). apply no_ph_I.
@@ -117,6 +117,8 @@ Proof.
     destruct (block_code k scope (base + length kc) t) as [ct kt]. cbn [fst] in *.
     repeat apply no_ph_app; try apply no_ph_I; assumption.
   - rewrite code_SWhile. destruct (cexp_at (slot_of scope) base c) as [cc kc]. destruct (block_code k scope (base + length kc) b) as [cb kb].
+    cbv zeta. cbn [fst]. apply no_ph_app; [apply no_ph_patch|apply no_ph_I].
+  - rewrite code_SLoop. destruct (block_code k scope base b) as [cb kb].
     cbv zeta. cbn [fst]. apply no_ph_app; [apply no_ph_patch|apply no_ph_I].
   - rewrite code_SFor. destruct (cexp_at (slot_of scope) base e) as [ci ki]. cbv zeta.
     destruct (cexp_at (slot_of (scope ++ [k])) (base + length ki) c) as [cc kc].
